@@ -165,10 +165,42 @@ impl CaoLangObject {
     }
 }
 
+/// Tables may (indirectly) contain themselves; comparing or hashing such a table must not recurse
+/// forever. Tables nested deeper than this are neither compared nor hashed any further.
+const MAX_NESTING: u32 = 128;
+
+thread_local! {
+    static NESTING: std::cell::Cell<u32> = const { std::cell::Cell::new(0) };
+}
+
+struct NestingGuard;
+
+impl NestingGuard {
+    fn enter() -> Option<Self> {
+        NESTING.with(|n| {
+            if n.get() >= MAX_NESTING {
+                None
+            } else {
+                n.set(n.get() + 1);
+                Some(NestingGuard)
+            }
+        })
+    }
+}
+
+impl Drop for NestingGuard {
+    fn drop(&mut self) {
+        NESTING.with(|n| n.set(n.get() - 1));
+    }
+}
+
 impl std::hash::Hash for CaoLangObject {
     fn hash<H: std::hash::Hasher>(&self, state: &mut H) {
         match &self.body {
             CaoLangObjectBody::Table(o) => {
+                let Some(_guard) = NestingGuard::enter() else {
+                    return;
+                };
                 for (k, v) in o.iter() {
                     k.hash(state);
                     v.hash(state);
@@ -200,6 +232,9 @@ impl PartialEq for CaoLangObject {
                 if lhs.len() != rhs.len() {
                     return false;
                 }
+                let Some(_guard) = NestingGuard::enter() else {
+                    return false;
+                };
                 for ((kl, vl), (kr, vr)) in lhs.iter().zip(rhs.iter()) {
                     if kl != kr || vl != vr {
                         return false;
